@@ -285,6 +285,31 @@ def run(ctx):
             ints = [c.get("int") for (c, _) in body_consts(b, False)]
             ctx.ob("S3", b.defp, "counter-starts-before-zero", loc(b.sp), 255 in ints or any((c.get("item") or "").endswith("MAX") for (c, _) in body_consts(b, False)), "initial state 0xFF.. so the first generated nonce is 0")
 
+    # an integer chunk counter (VMess: `count(uint16)` in front of the IV bytes) wraps modulo its width, as every other implementation's does:
+    # a generator that saturates or refuses at the maximum puts different nonces on the wire from chunk 65536 on
+    from .common import aead_roles
+    _, gen_types = aead_roles(prog)
+    n_cnt = 0
+    for b in bodies:
+        if (b.impl_self_def or "") not in gen_types or b.root != b.defp or b.argc < 1:
+            continue
+        it_ = [it for it in prog.items if it["k"] == "struct" and it["path"] == b.impl_self_def]
+        cnt_fields = [fn for (fn, fty) in (it_[0]["fields"] if it_ else []) if fty.strip() in ("u16", "u32", "u64")]
+        if not cnt_fields:
+            continue
+        writes = [(blk, s_) for blk in b.rpo() for s_ in b.stmts(blk) if s_["k"] == "assign" and any(e[0] == "field" and len(e) > 2 and e[2] in cnt_fields for e in s_["p"][1])]
+        if not writes:
+            continue
+        n_cnt += 1
+        steps = [c.method for (_, c, _) in b.calls() if c.method in ("overflowing_add", "wrapping_add", "saturating_add", "checked_add", "strict_add", "unchecked_add")]
+        plain = [1 for blk in b.rpo() for s_ in b.stmts(blk) if s_["k"] == "assign" and s_["rv"]["k"] == "bin" and s_["rv"]["op"] == "AddWithOverflow"]
+        ok = bool(steps) and all(m in ("overflowing_add", "wrapping_add") for m in steps) and not plain
+        ctx.ob("S3", b.defp, "chunk-counter-wraps", loc(b.sp), ok,
+               f"the {'/'.join(cnt_fields)} counter advances with {steps or 'wrapping arithmetic'} (wraps at its width)" if ok else
+               f"the {'/'.join(cnt_fields)} counter advances with {steps or 'a checked `+`'}: at the maximum it sticks / fails instead of wrapping to 0 as the specification's "
+               "uint16 counter does — from that chunk on a conforming peer derives a different nonce and every chunk fails authentication, in both directions")
+    ctx.floor("S3", "integer chunk counters of nonce generators", 1, n_cnt)
+
     # ---------------- S4 session sibling agreement ----------------------------------------------
     maps = {}
     for b in bodies:
